@@ -430,7 +430,7 @@ LEGS = [
         name="history",
         run=run_history,
         strategy=lambda tier: history_case(tier),
-        quick=400, thorough=3000, quick_shards=4, thorough_shards=12, nt_floor=0.15,
+        quick=400, thorough=3000, quick_shards=4, thorough_shards=12, nt_floor=0.15, fuzz_runs=20_000,
         rule="operation sequence with >= N pushes, >= 1 pointer move (incr/decr/pop/align/del latest) "
              "followed by a read, and >= 1 range op that wraps the end of storage or has length N; "
              "distinct by SHA-1 of the case",
